@@ -1,6 +1,7 @@
 """C14 - DMX export/parse preserves the element graph in binary and KeyValues2 form."""
 from __future__ import annotations
 
+import concurrent.futures as cf
 import json
 import time
 
@@ -53,68 +54,87 @@ def run(tier: str, seed: int) -> int:
                 ('DmxGraph', 'DmxGraphTyped_edges.cfg')]
         if thorough:
             fams.append(('DmxGraph', 'DmxGraphTypedT_edges.cfg'))
-        for module, cfg in fams:
+
+        def family(job):
+            """TLC dumps the edges of one configuration (single worker), the driver replays them."""
+            module, cfg = job
             edges, r, path = dump(module, cfg, work, 3000)
-            cov['models'][cfg] = {'generated': r.generated, 'distinct': r.distinct, 'depth': r.depth}
-            cov['states'] += r.distinct
-            cov['transitions'] += r.generated
             n_exp = sum(1 for e in edges if e['a']['op'] == 'export')
             n_ok = sum(1 for e in edges if e['a']['op'] == 'export' and e['a']['ok'])
             # printed edges = all transitions except the initial state and the Parse steps (one per written file)
             if len(edges) != r.generated - 1 - n_ok:
                 raise core.MachineryError(f'{cfg}: {len(edges)} edges printed, {r.generated} states generated, {n_ok} files')
+            ops: dict = {}
             for e in edges:
-                actions[e['a']['op']] = actions.get(e['a']['op'], 0) + 1
-            actions['parse'] = actions.get('parse', 0) + n_ok
+                ops[e['a']['op']] = ops.get(e['a']['op'], 0) + 1
+            ops['parse'] = n_ok
             out = work.path(cfg + '.ndjson')
             st = json.loads(core.run_driver('c14_driver.py', ['edges', path, out],
                                             env={'VERIF_SEED': seed, 'VERIF_TIER': tier}).strip().splitlines()[-1])
             if st.get('exports', 0) != n_exp or st.get('builds', 0) != len(edges) - n_exp or st.get('pre_state_diverged'):
                 raise core.MachineryError(f'{cfg}: coverage handshake failed: driver {st}, model exports {n_exp}, edges {len(edges)}')
+            return cfg, r, out, n_exp, len(edges) - n_exp, ops
+
+        def kv1_family():
+            """KeyValues1 bridge: TLC enumerates the trees, the driver converts each."""
+            cfg = 'DmxGraphKv1_edges.cfg' if thorough else 'DmxGraphKv1Q_edges.cfg'
+            edges, r, path = dump('DmxGraphKv1', cfg, work, 1800)
+            if len(edges) != r.generated - 1:
+                raise core.MachineryError(f'{cfg}: {len(edges)} edges for {r.generated} states')
+            out = work.path('kv1.ndjson')
+            st = json.loads(core.run_driver('c14_driver.py', ['kv1', path, out],
+                                            env={'VERIF_SEED': seed, 'VERIF_TIER': tier}).strip().splitlines()[-1])
+            if st.get('kv1_edges') != len(edges):
+                raise core.MachineryError(f'kv1 coverage handshake failed: {st} vs {len(edges)} trees')
+            return cfg, r, out, len(edges)
+
+        with cf.ThreadPoolExecutor(max_workers=len(fams) + 1) as ex:
+            kv_future = ex.submit(kv1_family)
+            results = list(ex.map(family, fams))
+            kv_cfg, kv_r, kv_out, kv_n = kv_future.result()
+        for cfg, r, out, n_exp, n_build, ops in results:
+            cov['models'][cfg] = {'generated': r.generated, 'distinct': r.distinct, 'depth': r.depth}
+            cov['states'] += r.distinct
+            cov['transitions'] += r.generated
+            for k, v in ops.items():
+                actions[k] = actions.get(k, 0) + v
             exports += n_exp
-            builds += len(edges) - n_exp
+            builds += n_build
             recs.append(out)
         want = {'scalar_ref', 'ref_array', 'append_ref', 'value', 'place', 'export', 'parse'}
         if not want <= set(actions):
             raise core.MachineryError(f'vacuous model: actions never taken: {want - set(actions)}')
-        # KeyValues1 bridge
-        cfg = 'DmxGraphKv1_edges.cfg' if thorough else 'DmxGraphKv1Q_edges.cfg'
-        edges, r, path = dump('DmxGraphKv1', cfg, work, 1800)
-        if len(edges) != r.generated - 1:
-            raise core.MachineryError(f'{cfg}: {len(edges)} edges for {r.generated} states')
-        cov['models'][cfg] = {'generated': r.generated, 'distinct': r.distinct, 'depth': r.depth}
-        cov['states'] += r.distinct
-        cov['transitions'] += r.generated
-        actions['tree'] = len(edges)
-        out = work.path('kv1.ndjson')
-        st = json.loads(core.run_driver('c14_driver.py', ['kv1', path, out],
-                                        env={'VERIF_SEED': seed, 'VERIF_TIER': tier}).strip().splitlines()[-1])
-        if st.get('kv1_edges') != len(edges):
-            raise core.MachineryError(f'kv1 coverage handshake failed: {st} vs {len(edges)} trees')
-        recs.append(out)
+        recs.append(kv_out)
+        cov['models'][kv_cfg] = {'generated': kv_r.generated, 'distinct': kv_r.distinct, 'depth': kv_r.depth}
+        cov['states'] += kv_r.distinct
+        cov['transitions'] += kv_r.generated
+        actions['tree'] = kv_n
         if thorough:
             # larger bounds, design only
-            for module, cfg in (('DmxGraph', 'DmxGraphTypedT_mc.cfg'),):
+            for module, cfg in (('DmxGraph', 'DmxGraph4_mc.cfg'),):
                 r = run_tlc(module, cfg, timeout=3000)
                 core.require_mc(r, cfg)
                 cov['models'][cfg] = {'generated': r.generated, 'distinct': r.distinct, 'depth': r.depth}
+                cov['states'] += r.distinct
+                cov['transitions'] += r.generated
         # 3. random graphs outside the bounds
         out = work.path('random.ndjson')
         core.run_driver('c14_driver.py', ['random', out], env={'VERIF_SEED': seed, 'VERIF_TIER': tier})
         recs.append(out)
-        # 4. TLC validates every record
-        allm = []
-        total = 0
+        # 4. TLC validates every record (one merged file: fewer JVM starts)
+        merged = work.path('all.ndjson')
         samples = []
-        for p in recs:
-            mism, st = core.validate_records('DmxGraphTrace', 'DmxGraphTrace.cfg', p, work=work)
-            allm += mism
-            total += st['records']
-            cov['states'] += st['states']
-            cov['transitions'] += st['transitions']
-            rs = core.read_ndjson(p)
-            s = rs[len(rs) // 2]
-            samples.append({k: v for k, v in s.items() if k not in ('conc', 'na')})
+        with open(merged, 'w', encoding='utf-8') as mf:
+            for p in recs:
+                text = open(p, encoding='utf-8').read()
+                mf.write(text)
+                lines = text.splitlines()
+                s = json.loads(lines[len(lines) // 2])
+                samples.append({k: v for k, v in s.items() if k not in ('conc', 'na')})
+        allm, st = core.validate_records('DmxGraphTrace', 'DmxGraphTrace.cfg', merged, work=work)
+        total = st['records']
+        cov['states'] += st['states']
+        cov['transitions'] += st['transitions']
         cov['traces_validated_against_impl'] = total
         cov['records_validated'] = total
         cov['edges_replayed'] = exports + builds + actions['tree']
